@@ -479,7 +479,7 @@ mutual
           (renderQuery { (setopCtx c base.fl) with subquery := base.fl.wrapSetOps } base ++
            renderOps { (setopCtx c base.fl) with subquery := base.fl.wrapSetOps } base.selects.length ops ++
            opt (!orderbys.isEmpty) (kws " ORDER BY " ::
-             joinDocs (K ",") (renderOrderBy { (setopCtx c base.fl) with quote := .given (setopCtx c base.fl).q } base.selects none orderbys)) ++
+             joinDocs (K ",") (renderOrderBy { (setopCtx c base.fl) with quote := .given (setopCtx c base.fl).q } base.selects (setopCtx c base.fl).aq orderbys)) ++
            setopPaginate limit offset) ++
         opt c.withAlias (aliasDoc (setopCtx c base.fl) (setopCtx c base.fl).q alias)
 
